@@ -746,7 +746,8 @@ def shards(tier: str, seed: int) -> list:
 
     if tier == "quick":
         # the hash-seed shards first: they wait for eight child interpreters each
-        jobs = [{"fam": "R", "cfg": "q0", "sizes": [1, 2, 3]}, {"fam": "H", "cfg": "h1", "sizes": [1, 2, 3]},
+        jobs = [{"fam": "R", "cfg": "q0", "sizes": [1, 2, 3]}, {"fam": "R", "cfg": "q6", "sizes": [2]},
+                {"fam": "H", "cfg": "h1", "sizes": [1, 2, 3]},
                 {"fam": "F", "cfg": "f1", "sizes": [1, 2, 3]}]
         out += [{"fam": "S", "jobs": jobs, "chunk": i, "of": 4, "seeds": list(range(8))} for i in range(4)]
         out += split("R", "q0", [1, 2, 3], 8, "all")
@@ -761,6 +762,7 @@ def shards(tier: str, seed: int) -> list:
         return out
     # thorough (cheap exhaustive families and the sampled one first: a truncated run starves the big ones last)
     jobs = [{"fam": "R", "cfg": "r0", "sizes": [1, 2, 3]}, {"fam": "R", "cfg": "r2", "sizes": [1, 2, 3]},
+            {"fam": "R", "cfg": "q6", "sizes": [2, 3]},
             {"fam": "H", "cfg": "h3", "sizes": [1, 2, 3]}, {"fam": "H", "cfg": "h4", "sizes": [1, 2, 3]},
             {"fam": "F", "cfg": "f0"}, {"fam": "F", "cfg": "f1"}]
     out += [{"fam": "S", "jobs": jobs, "chunk": i, "of": 16, "seeds": list(range(16))} for i in range(16)]
